@@ -7,8 +7,8 @@ import cybuild
 # (proposed_fixes/C48-directives_not_in_key.diff / C48-module_options_not_in_key.diff).
 # While False, the Coq theorems are stated for the table *with the repair modelled*
 # (M_CacheKey.repaired) and the *_refuted lemmas for the table as observed.
-F8_FIXED = os.environ.get("C48_F8_FIXED", "0") == "1"
-MODOPTS_FIXED = os.environ.get("C48_MODOPTS_FIXED", "0") == "1"
+F8_FIXED = os.environ.get("C48_F8_FIXED", "1") == "1"
+MODOPTS_FIXED = os.environ.get("C48_MODOPTS_FIXED", "1") == "1"
 
 TITLE = "Compilation caches never return stale results"
 EXTRACTS = ["CacheKey"]
